@@ -47,7 +47,10 @@ From Cell2V Require Import Common.Tac Common.ListX Common.AList.
 
 Inductive meth :=
 | MEcho | MSetKey (v : Z) | MFail | MBoom | MNever | MNote | MNoMethod | MNoGroup | MBadPayload
-| MUnenc | MEncPanic | MEchoLater | MUnencLater | MEncPanicLater.
+| MUnenc | MEncPanic | MEchoLater | MUnencLater | MEncPanicLater
+| MZero                      (* completes successfully with an all-default result: NO payload bytes *)
+| MMisspelt (base k : Z).    (* the route of harness method number [base], spelled in a way that is
+                                not registered (k: Go-name / upper-case method, capitalised group) *)
 
 Inductive route :=
 | RT (ty : Z) (m : meth)        (* well-formed  type.group.method *)
@@ -73,7 +76,8 @@ Inductive op :=
    (Corr.prep). *)
 | OHandshake (c : Z)
 | OAck (c : Z)
-| OHeartbeat (c : Z).
+| OHeartbeat (c : Z)
+| OProto.                             (* the case runs with the protobuf client serializer: nothing else changes *)
 
 Inductive ev := EOp (o : op) | EDeliver (k : nat).
 
@@ -89,18 +93,22 @@ Inductive completion := CReply | CErr | CSilent.
 
 Definition completes (m : meth) : completion :=
   match m with
-  | MEcho | MSetKey _ | MEchoLater => CReply
+  | MEcho | MSetKey _ | MEchoLater | MZero => CReply
   | MNever => CSilent
-  | MFail | MBoom | MNote | MNoMethod | MNoGroup | MBadPayload | MUnenc | MEncPanic | MUnencLater | MEncPanicLater => CErr
+  | MFail | MBoom | MNote | MNoMethod | MNoGroup | MBadPayload | MUnenc | MEncPanic | MUnencLater | MEncPanicLater | MMisspelt _ _ => CErr
   end.
 
 (* is the user's handler function entered? ([isreq]: the call carries a completion) *)
 Definition invoked (m : meth) (isreq : bool) : bool :=
   match m with
-  | MEcho | MSetKey _ | MFail | MBoom | MNever | MUnenc | MEncPanic | MEchoLater | MUnencLater | MEncPanicLater => true
+  | MEcho | MSetKey _ | MFail | MBoom | MNever | MUnenc | MEncPanic | MEchoLater | MUnencLater | MEncPanicLater | MZero => true
   | MNote => negb isreq        (* request to a notify-shaped method: refused before the call *)
-  | MNoMethod | MNoGroup | MBadPayload => false
+  | MNoMethod | MNoGroup | MBadPayload | MMisspelt _ _ => false
   end.
+
+(* what a successful completion carries *)
+Definition reply_payload (m : meth) (inst tag : Z) : payload :=
+  match m with MZero => PNone | _ => PReply inst tag end.
 
 Record conn := mkConn { c_open : bool; c_key : Z; c_sid : Z }.
 
@@ -191,7 +199,7 @@ Section Routing.
     if Z.eqb ty front_type then
       let s1 := if invoked m (negb (Z.eqb mid 0)) then log s front_inst tag else s in
       match completes m with
-      | CReply => write s1 c tag mid false (PReply front_inst tag)
+      | CReply => write s1 c tag mid false (reply_payload m front_inst tag)
       | CErr => write s1 c tag mid true PNone
       | CSilent => s1
       end
@@ -223,7 +231,7 @@ Section Routing.
               let ph :=
                 if isreq then
                   match completes (f_m f) with
-                  | CReply => PToFront (f_sid f) (f_mid f) false (PReply (f_i f) (f_tag f))
+                  | CReply => PToFront (f_sid f) (f_mid f) false (reply_payload (f_m f) (f_i f) (f_tag f))
                   | CErr => PToFront (f_sid f) (f_mid f) true PNone
                   | CSilent => PSilent
                   end
@@ -254,7 +262,7 @@ Section Routing.
   Definition op_step (s : st) (o : op) : st :=
     let s1 := mkSt (conn_step (conns s) o) (fwd s) (out s) (hlog s) in
     match o with
-    | OConnect _ _ _ | OClose _ | OHandshake _ | OAck _ | OHeartbeat _ => s1
+    | OConnect _ _ _ | OClose _ | OHandshake _ | OAck _ | OHeartbeat _ | OProto => s1
     | OReq c mid r tag => if is_open (conns s) c then request s1 c mid r tag else s
     | ONotify c r tag => if is_open (conns s) c then request s1 c 0 r tag else s
     | OAdvance => advance s
